@@ -80,9 +80,51 @@ func (e *env) violate(format string, a ...any) {
 
 // ---- block device -------------------------------------------------------------
 
+// fakeDevice is dense (data) for ordinary devices and sparse (a map of written sectors) for the
+// simulated 8-64 GiB devices; bytes never written read as foreign-looking garbage.
 type fakeDevice struct {
-	e    *env
-	data []byte
+	e      *env
+	data   []byte
+	sparse map[int64][]byte // sector index -> contents (only when size > len(data))
+	size   int64
+}
+
+func garbage(off int64) byte { return 0xE0 | byte(off%31+1) }
+
+func (d *fakeDevice) get(p []byte, off int64) {
+	if d.sparse == nil {
+		copy(p, d.data[off:])
+		return
+	}
+	ss := int64(d.e.ss)
+	for i := range p {
+		o := off + int64(i)
+		if sec, ok := d.sparse[o/ss]; ok {
+			p[i] = sec[o%ss]
+		} else {
+			p[i] = garbage(o)
+		}
+	}
+}
+
+func (d *fakeDevice) put(p []byte, off int64) {
+	if d.sparse == nil {
+		copy(d.data[off:], p)
+		return
+	}
+	ss := int64(d.e.ss)
+	for i, b := range p {
+		o := off + int64(i)
+		sec, ok := d.sparse[o/ss]
+		if !ok {
+			sec = make([]byte, ss)
+			for k := range sec {
+				sec[k] = garbage(o/ss*ss + int64(k))
+			}
+			d.sparse[o/ss] = sec
+		}
+		sec[o%ss] = b
+	}
 }
 
 func (d *fakeDevice) ReadAt(p []byte, off int64) (int, error) {
@@ -90,20 +132,20 @@ func (d *fakeDevice) ReadAt(p []byte, off int64) (int, error) {
 	k := pl.nDR
 	pl.nDR++
 	d.e.maybeNest("DR", k)
-	if off < 0 || off+int64(len(p)) > int64(len(d.data)) {
-		d.e.violate("block device read [%d,%d) outside the device of %d bytes", off, off+int64(len(p)), len(d.data))
+	if off < 0 || off+int64(len(p)) > d.size {
+		d.e.violate("block device read [%d,%d) outside the device of %d bytes", off, off+int64(len(p)), d.size)
 		return 0, errOOB
 	}
 	if pl.drK == k {
 		n := min(pl.drN, len(p))
 		pl.delivered = true
-		copy(p, d.data[off:off+int64(n)])
+		d.get(p[:n], off)
 		if pl.drShort {
 			return n, nil
 		}
 		return n, errDevice
 	}
-	copy(p, d.data[off:])
+	d.get(p, off)
 	return len(p), nil
 }
 
@@ -112,17 +154,17 @@ func (d *fakeDevice) WriteAt(p []byte, off int64) (int, error) {
 	k := pl.nDW
 	pl.nDW++
 	d.e.maybeNest("DW", k)
-	if off < 0 || off+int64(len(p)) > int64(len(d.data)) {
-		d.e.violate("block device write [%d,%d) outside the device of %d bytes", off, off+int64(len(p)), len(d.data))
+	if off < 0 || off+int64(len(p)) > d.size {
+		d.e.violate("block device write [%d,%d) outside the device of %d bytes", off, off+int64(len(p)), d.size)
 		return 0, errOOB
 	}
 	if pl.dwK == k {
 		n := min(pl.dwN, len(p))
 		pl.delivered = true
-		copy(d.data[off:], p[:n])
+		d.put(p[:n], off)
 		return n, errDevice
 	}
-	copy(d.data[off:], p)
+	d.put(p, off)
 	return len(p), nil
 }
 
